@@ -303,6 +303,8 @@ func Gen(prop, tier string, seed uint64) *kernel.Plan {
 		c.invalid = 120
 	case "C15":
 		c.invalid = 80
+	case "C10":
+		c.invalid = 80 // refused calls are mirrored on the restored instance, too
 	}
 	cfg := Config{Kind: kind, N: n, Oracles: map[string]bool{"nopanic": true}}
 	tags := false
